@@ -259,6 +259,7 @@ func c19(p *core.Program, r *core.Report) {
 
 	wholeFixRule(p, r, "fix-appended-whole")
 	hemisphereRule(p, r, "hemisphere-by-sign-of-angle")
+	headerStatelessRule(p, r, "date-header-stateless")
 	utcRule(p, r, "utc-both-sides")
 	sentinelRule(p, r, "index-sentinel-checked", []string{"encoding/igc"}, 1)
 
@@ -1011,4 +1012,157 @@ func hemisphereRule(p *core.Program, r *core.Report, rule string) {
 		okL := got[0] == tc.lat && got[1] == tc.lng
 		r.Check(okL, rule, fmt.Sprintf("%s/angle(%+.1f)", short(fn), tc.deg), p.Pos(fn.Pos()), true, "letters "+tc.lat+","+tc.lng, fmt.Sprintf("for an angle of %+.1f degrees the encoder writes the letters (%s, %s), want (%s, %s): the hemisphere does not follow the sign of the angle", tc.deg, got[0], got[1], tc.lat, tc.lng))
 	}
+}
+
+// headerStatelessRule: a DTE header is validated and interpreted on its own. parseH stores the date parts into the
+// parser; a read of one of those fields in parseH (or in a method of the parser it calls) that is not dominated by
+// the store of the same field sees the value of the PREVIOUS header - a range or meaning derived from it (the
+// length of February from last header's year) rejects or misreads valid dates depending on what came before.
+func headerStatelessRule(p *core.Program, r *core.Report, rule string) {
+	r.Rule(rule, "in (*parser).parseH every read of an integer field of the parser that parseH itself stores (day, month, year) - in parseH or in a function of the package it hands the parser to (two levels) - is dominated by the store of that field: before the store the field holds the previous header's value, and a bound or a date derived from it makes the acceptance of a valid DTE header depend on the headers before it (29 February of a leap year rejected after a header from a non-leap year)", 1)
+	fn := mustFn(p, r, rule, "encoding/igc", "(*parser).parseH")
+	if fn == nil || len(fn.Params) == 0 {
+		return
+	}
+	recv := fn.Params[0]
+	// the function that stores the date: parseH, or the function of the package it hands the parser to
+	storesInts := func(g *ssa.Function, prm *ssa.Parameter) bool {
+		for _, b := range g.Blocks {
+			for _, in := range b.Instrs {
+				if st, ok := in.(*ssa.Store); ok {
+					if fa, ok := st.Addr.(*ssa.FieldAddr); ok && fa.X == ssa.Value(prm) {
+						if tb, isB := st.Val.Type().Underlying().(*types.Basic); isB && tb.Info()&types.IsInteger != 0 {
+							return true
+						}
+					}
+				}
+			}
+		}
+		return false
+	}
+	for depth := 0; depth < 2 && !storesInts(fn, recv); depth++ {
+		var next *ssa.Function
+		var nprm *ssa.Parameter
+		for _, c := range eng.Calls(fn) {
+			h := eng.StaticCallee(c)
+			if h == nil || h.Pkg != fn.Pkg || len(h.Blocks) == 0 {
+				continue
+			}
+			for i, a := range c.Common().Args {
+				if a == ssa.Value(recv) && i < len(h.Params) && storesInts(h, h.Params[i]) {
+					next, nprm = h, h.Params[i]
+				}
+			}
+		}
+		if next == nil {
+			break
+		}
+		fn, recv = next, nprm
+	}
+	type storeAt struct {
+		f  *types.Var
+		in *ssa.Store
+	}
+	var stores []storeAt
+	stored := map[*types.Var]bool{}
+	for _, b := range fn.Blocks {
+		for _, in := range b.Instrs {
+			if st, ok := in.(*ssa.Store); ok {
+				if fa, ok := st.Addr.(*ssa.FieldAddr); ok && fa.X == ssa.Value(recv) {
+					if tb, isB := st.Val.Type().Underlying().(*types.Basic); isB && tb.Info()&types.IsInteger != 0 {
+						v := fieldVarOf(fa)
+						stores = append(stores, storeAt{v, st})
+						stored[v] = true
+					}
+				}
+			}
+		}
+	}
+	if len(stored) == 0 {
+		r.Lost(rule, "(*encoding/igc.parser).parseH/date-fields", "neither parseH nor a function it hands the parser to stores integer date fields")
+		return
+	}
+	dominated := func(f *types.Var, at ssa.Instruction) bool {
+		for _, s := range stores {
+			if s.f != f {
+				continue
+			}
+			if s.in.Block() == at.Block() {
+				if eng.InstrIndex(s.in) < eng.InstrIndex(at) {
+					return true
+				}
+				continue
+			}
+			if s.in.Block().Dominates(at.Block()) {
+				return true
+			}
+		}
+		return false
+	}
+	// the stored fields a function reads through parameter index pi (two levels)
+	var readsOf func(g *ssa.Function, pi int, depth int) []*types.Var
+	readsOf = func(g *ssa.Function, pi int, depth int) []*types.Var {
+		var out []*types.Var
+		if g == nil || len(g.Blocks) == 0 || pi >= len(g.Params) || depth > 2 {
+			return nil
+		}
+		prm := g.Params[pi]
+		for _, b := range g.Blocks {
+			for _, in := range b.Instrs {
+				switch x := in.(type) {
+				case *ssa.UnOp:
+					if fa, ok := x.X.(*ssa.FieldAddr); ok && x.Op == token.MUL && fa.X == ssa.Value(prm) && stored[fieldVarOf(fa)] {
+						out = append(out, fieldVarOf(fa))
+					}
+				case *ssa.Call:
+					h := x.Call.StaticCallee()
+					if h == nil || h.Pkg != g.Pkg {
+						continue
+					}
+					for i, a := range x.Call.Args {
+						if a == ssa.Value(prm) {
+							out = append(out, readsOf(h, i, depth+1)...)
+						}
+					}
+				}
+			}
+		}
+		return out
+	}
+	var bad []string
+	nreads := 0
+	for _, b := range fn.Blocks {
+		for _, in := range b.Instrs {
+			switch x := in.(type) {
+			case *ssa.UnOp:
+				if fa, ok := x.X.(*ssa.FieldAddr); ok && x.Op == token.MUL && fa.X == ssa.Value(recv) && stored[fieldVarOf(fa)] {
+					nreads++
+					if !dominated(fieldVarOf(fa), x) {
+						bad = append(bad, fmt.Sprintf("p.%s is read at %s before this header's value is stored", fieldVarOf(fa).Name(), p.Pos(x.Pos())))
+					}
+				}
+			case *ssa.Call:
+				h := x.Call.StaticCallee()
+				if h == nil || h.Pkg != fn.Pkg {
+					continue
+				}
+				for i, a := range x.Call.Args {
+					if a != ssa.Value(recv) {
+						continue
+					}
+					for _, f := range readsOf(h, i, 1) {
+						nreads++
+						if !dominated(f, x) {
+							bad = append(bad, fmt.Sprintf("%s, called at %s, reads p.%s before this header's value is stored", short(h), p.Pos(x.Pos()), f.Name()))
+						}
+					}
+				}
+			}
+		}
+	}
+	why := ""
+	if len(bad) > 0 {
+		why = bad[0] + ": the field still holds the previous header's value, so whether (and as what) this header is accepted depends on the headers before it"
+	}
+	r.Check(len(bad) == 0, rule, "(*encoding/igc.parser).parseH", p.Pos(fn.Pos()), true, fmt.Sprintf("%s: %d date fields stored, %d reads of them, none before its store", short(fn), len(stored), nreads), why)
 }
